@@ -61,4 +61,15 @@ CHECKS["C17"] = {
     "technique": "structured path enumeration + control-dependence guards + call-shape matching over ast; regex facts from runner.sh",
 }
 
+CHECKS["C16"] = {
+    "text": "Decides, for all three runner scripts, the errexit discipline (set -e first and never undone; every step command in a plain "
+            "errexit context), the flag table (getopts string, per-arm assignments, exit 10, exit 1 on stray arguments, identical across "
+            "scripts), the compile/run phase split and -r reuse directory, input selection with a truncating redirect, and that delivery to "
+            "a destination derived from $output_dir is the last step after the single job step on every run path. Exhaustive over the "
+            "commands of the scripts (about 200 command instances).",
+    "note": "Trusted: bash set -e semantics as documented; tools return non-zero on failure. The parser accepts only the bash subset in use and "
+            "fails closed (exit 2) outside it. Not decided: tool behaviour, partial writes of a failing copy/conversion.",
+    "technique": "hand-written bash-subset parser; errexit-context and guard annotation of every command; rule checks on the command tree",
+}
+
 NOT_APPLICABLE = {}
